@@ -217,3 +217,11 @@ def same_tracers(ctx):
 def witness_private(ctx):
     from .. import witness
     witness.check(ctx, ['MasterKeyRepresentationIsPrivate'])
+
+
+@rule('C17', 'wire', configs=('default', 'p256'))
+def wire(ctx):
+    """'This survives refreshes and serialization': users, tracers and ids round-trip."""
+    from . import c13
+    c13.restricted(ctx, r'(core::TracingSecretKey|core::TracingPublicKey|core::UserId|core::UserSecretKey|core::MasterSecretKey)$',
+                   [c13.agree, c13.fields, c13.order])
